@@ -6,6 +6,9 @@ fn main() {
     match a.cmd.as_str() {
         "toa" => vharness::modrec::toa(&a),
         "ldro" => vharness::modrec::ldro(&a),
+        "codec_build" => vharness::codecrec::codec_build(&a),
+        "codec_parse" => vharness::codecrec::codec_parse(&a),
+        "codec_replay" => vharness::codecrec::codec_replay(&a),
         other => {
             eprintln!("unknown command {other}");
             std::process::exit(2);
